@@ -33,7 +33,9 @@ def run(ctx):
     for b in range(batches):
         tr = ctx.work / f"sync-{b}.ndjson"
         sm = ctx.work / f"sync-{b}.json"
-        ctx.vh("tc-sync", "--seed", ctx.seed * 100 + b, "--schedules", per, "--out", tr, "--summary", sm, timeout=3000)
+        # the first batch also carries the systematic part: every signaller sequence of <= 2 (thorough: 3) operations
+        ctx.vh("tc-sync", "--seed", ctx.seed * 100 + b, "--schedules", per, "--systematic-depth", (2 if q else 3) if b == 0 else 0,
+               "--out", tr, "--summary", sm, timeout=3000)
         st = json.loads(sm.read_text())
         distinct += st["distinct_schedules"]
         events = vlib.read_ndjson(tr)
@@ -59,8 +61,8 @@ def run(ctx):
             rest = evs[:start] + evs[start + len(run_evs):]
             cur = ctx.work / f"sync-{b}-r{attempt}.ndjson"
             cur.write_text("".join(json.dumps(e) + "\n" for e in rest))
-        total_sched += per
-        ctx.coverage["traces_validated_against_impl"] += per - bad
+        total_sched += st["schedules"]
+        ctx.coverage["traces_validated_against_impl"] += st["schedules"] - bad
         if b == 0:
             s0, run0 = vlib.run_of_line(events, 2)
             ctx.sample({"kind": "one recorded real-thread schedule", "events": run0[:14]})
